@@ -638,3 +638,30 @@ seed('c12-n-sibling-guard-parent-form', 'C12', [(PDFH, "if (index + 2 == data_.s
 seed('c12-n-sibling-guard-bit-test', 'C12', [(PDFH, "if (index + 2 == data_.size() && index % 2 == 0)", "if (index + 2 == data_.size() && (index & 1) == 0)")], None)
 INFS = 'src/ompl/base/samplers/src/InformedStateSampler.cpp'
 seed('c15-n-heuristic-seeded-with-start-zero', 'C15', [(INFS, "            Cost bestCost = opt_->infiniteCost();\n\n            // Iterate over each start and store the best\n            for (unsigned int i = 0u; i < probDefn_->getStartStateCount(); ++i)", "            Cost bestCost = opt_->combineCosts(opt_->motionCostHeuristic(probDefn_->getStartState(0u), statePtr),\n                                               opt_->costToGo(statePtr, probDefn_->getGoal().get()));\n\n            // Iterate over the other starts and store the best\n            for (unsigned int i = 1u; i < probDefn_->getStartStateCount(); ++i)")], None)
+PDC = 'src/ompl/base/src/PlannerData.cpp'
+SCOPED = 'src/ompl/base/ScopedState.h'
+LINH = 'src/ompl/datastructures/NearestNeighborsLinear.h'
+RNC = 'src/ompl/util/src/RandomNumbers.cpp'
+PLDC = 'src/ompl/base/samplers/informed/src/PathLengthDirectInfSampler.cpp'
+AITC = 'src/ompl/geometric/planners/informedtrees/src/AITstar.cpp'
+LPRMC = 'src/ompl/geometric/planners/prm/src/LazyPRM.cpp'
+LRRTC = 'src/ompl/geometric/planners/rrt/src/LazyRRT.cpp'
+RSTARC = 'src/ompl/geometric/planners/rrt/src/RRTstar.cpp'
+CPDST = 'src/ompl/control/planners/pdst/src/PDST.cpp'
+seed('c09-plannerdata-clear-keeps-marks', 'C09', [(PDC, "    decoupledStates_.clear();\n    stateIndexMap_.clear();\n    startVertexIndices_.clear();\n    goalVertexIndices_.clear();\n}", "    decoupledStates_.clear();\n    stateIndexMap_.clear();\n}")], 'R09m')
+seed('c09-extract-storage-metadata-by-vertex-index', 'C09', [(PDC, "store->getMetadata(it.second);", "store->getMetadata(it.first);")], 'R09l')
+seed('c09-scopedstate-reals-through-table', 'C09', [(SCOPED, "                std::vector<double> r;\n                unsigned int index = 0;\n                while (double *va = space_->getValueAddressAtIndex(state_, index++))\n                    r.push_back(*va);\n                return r;", "                std::vector<double> r;\n                space_->copyToReals(r, state_);\n                return r;")], 'R09k')
+seed('c10-linear-remove-all-equal', 'C10', [(LINH, "            if (!data_.empty())\n                for (int i = data_.size() - 1; i >= 0; --i)\n                    if (data_[i] == data)\n                    {\n                        data_.erase(data_.begin() + i);\n                        return true;\n                    }\n            return false;", "            auto last = std::remove(data_.begin(), data_.end(), data);\n            if (last == data_.end())\n                return false;\n            data_.erase(last, data_.end());\n            return true;")], 'R10l')
+seed('c10-n-linear-remove-forward-scan', 'C10', [(LINH, "                for (int i = data_.size() - 1; i >= 0; --i)\n                    if (data_[i] == data)", "                for (std::size_t i = 0; i < data_.size(); ++i)\n                    if (data_[i] == data)")], None)
+seed('c20-setlocalseed-same-seed-early-return', 'C20', [(RNC, "    // Store the seed\n    localSeed_ = localSeed;\n\n    // Change the generator's seed\n    generator_.seed(localSeed_);\n", "    generator_.seed(localSeed);\n    if (localSeed == localSeed_)\n        return;\n    localSeed_ = localSeed;\n")], 'R20b')
+seed('c15-lower-bound-base-heuristic', 'C15', [(PLDC, "Cost sampledCost = heuristicSolnCost(statePtr);", "Cost sampledCost = InformedSampler::heuristicSolnCost(statePtr);")], 'R15i')
+seed('c15-measure-clamped-by-subspace', 'C15', [(PLDC, "return std::min(InformedSampler::space_->getMeasure(), informedMeasure);", "return std::min(informedSubSpace_->getMeasure(), informedMeasure);")], 'R15i')
+seed('c15-n-measure-clamp-args-swapped', 'C15', [(PLDC, "return std::min(InformedSampler::space_->getMeasure(), informedMeasure);", "return std::min(informedMeasure, InformedSampler::space_->getMeasure());")], None)
+seed('c04-aitstar-registry-flag-hoisted', 'C04', [(AITC, "            // Check if any of the goals have a cost to come less than the current solution cost.\n            for (const auto &goal : graph_.getGoalVertices())\n            {", "            const bool removed = !pdef_->hasExactSolution();\n            for (const auto &goal : graph_.getGoalVertices())\n            {", 0), (AITC, "                    (!pdef_->hasExactSolution() && objective_->isFinite(goal->getCostToComeFromStart())))", "                    (removed && objective_->isFinite(goal->getCostToComeFromStart())))", 0)], 'R04q')
+seed('c01-lazyprm-imported-edges-valid', 'C01', [(LPRMC, "                edgeValidityProperty_[edge] = VALIDITY_UNKNOWN;", "                edgeValidityProperty_[edge] = VALIDITY_TRUE;")], 'R01b')
+seed('c01-lazyrrt-validation-interruptible', 'C01', [(LRRTC, "i >= 0 && solutionFound; --i)", "i >= 0 && solutionFound && !ptc; --i)")], 'R01b')
+seed('c03-lazyrrt-validation-interruptible', 'C03', [(LRRTC, "i >= 0 && solutionFound; --i)", "i >= 0 && solutionFound && !ptc; --i)")], 'R03s')
+seed('c01-rrtstar-valid-cache-position', 'C01', [(RSTARC, "                        valid[*i] = 1;\n                        break;", "                        valid[i - sortedCostIndices.begin()] = 1;\n                        break;")], 'R01x')
+seed('c01-n-rrtstar-valid-cache-parenthesised', 'C01', [(RSTARC, "                        valid[*i] = 1;\n                        break;", "                        valid[(*i)] = 1;\n                        break;")], None)
+seed('c02-pdst-closest-before-solved', 'C02', [(CPDST, "        if (hasSolution)\n        {\n            closestDistanceToGoal = distanceToGoal;\n            lastGoalMotion_ = newMotion;\n            isApproximate = false;\n            break;\n        }\n        else if (distanceToGoal < closestDistanceToGoal)\n        {\n            closestDistanceToGoal = distanceToGoal;\n            lastGoalMotion_ = newMotion;\n        }", "        if (distanceToGoal < closestDistanceToGoal)\n        {\n            closestDistanceToGoal = distanceToGoal;\n            lastGoalMotion_ = newMotion;\n        }\n        if (hasSolution)\n        {\n            isApproximate = false;\n            break;\n        }")], 'R02f')
+seed('c05-discrete-scratch-copied-unwritten', 'C05', [(DMV, "    if (nd > 1)\n    {\n        /* temporary storage for the checked state */\n        State *test = si_->allocState();\n\n        for (int j = 1; j < nd; ++j)\n        {\n            stateSpace_->interpolate(s1, s2, (double)j / (double)nd, test);\n            if (!si_->isValid(test))\n            {\n                lastValid.second = (double)(j - 1) / (double)nd;\n                if (lastValid.first != nullptr)\n                    stateSpace_->interpolate(s1, s2, lastValid.second, lastValid.first);\n                result = false;\n                break;\n            }\n        }\n        si_->freeState(test);\n    }\n\n    if (result)\n        if (!si_->isValid(s2))\n        {\n            lastValid.second = (double)(nd - 1) / (double)nd;\n            if (lastValid.first != nullptr)\n                stateSpace_->interpolate(s1, s2, lastValid.second, lastValid.first);\n            result = false;\n        }\n", "    State *test = si_->allocState();\n    if (nd > 1)\n    {\n        for (int j = 1; j < nd; ++j)\n        {\n            stateSpace_->interpolate(s1, s2, (double)j / (double)nd, test);\n            if (!si_->isValid(test))\n            {\n                lastValid.second = (double)(j - 1) / (double)nd;\n                if (lastValid.first != nullptr)\n                    stateSpace_->interpolate(s1, s2, lastValid.second, lastValid.first);\n                result = false;\n                break;\n            }\n        }\n    }\n\n    if (result)\n        if (!si_->isValid(s2))\n        {\n            lastValid.second = (double)(nd - 1) / (double)nd;\n            if (lastValid.first != nullptr)\n                si_->copyState(lastValid.first, test);\n            result = false;\n        }\n    si_->freeState(test);\n")], 'R05f')
